@@ -652,11 +652,11 @@ def r84(rep: Report, ctx: Ctx) -> None:
     # children come from child_event_ids through the span map
     grp_fn = ctx.func("group_events_using_async_information")
     g_calls = calls_in(ctx, fi, grp_fn)
-    ok = False
-    if len(g_calls) == 1:
-        a = actual(g_calls[0], grp_fn, "events")
-        src = defs.resolve(a) if a is not None else None
-        ok = isinstance(src, ast.ListComp) and "child_event_ids" in {
+    ok = bool(g_calls)
+    for gc in g_calls:
+        a = actual(gc, grp_fn, "events")
+        src = ctx.reach(fi).resolve(a, at=gc) if a is not None else None
+        ok = ok and isinstance(src, ast.ListComp) and "child_event_ids" in {
             x.attr for x in ast.walk(src) if isinstance(x, ast.Attribute)} \
             and not src.generators[0].ifs
     rep.ob("R8.4", "children = every id in child_event_ids", ok, fi=fi,
@@ -689,8 +689,8 @@ def r85(rep: Report, ctx: Ctx) -> None:
     # the between-groups sort must see groups already sorted inside (it keys
     # on element 0 = the group's earliest member)
     fdefs = ctx.defs(fi)
-    outer = [s for s in sorts if kw(s, "key") is not None and "[0]" in
-             unparse(kw(s, "key"))]
+    outer = [s for s in sorts if kw(s, "key") is not None and any(
+        isinstance(n, ast.Subscript) for n in ast.walk(kw(s, "key")))]
     inner = [s for s in sorts if s not in outer]
     if outer and inner:
         src = fdefs.resolve_deep(outer[0].args[0]) if outer[0].args else None
